@@ -113,6 +113,15 @@ theorem c09_eof_sound_hand (k f i d : Nat) (c : Int) (G : Gated) (gst : G.σ) (t
   obtain ⟨_, _, rfl⟩ := hp
   rfl
 
+/-- … and for the complex FftFilter (an unfinished batch stays in its buffer: nothing is delivered for it, with
+or without further calls) and VecToStream (no packet queued ⇒ nothing delivered). -/
+theorem c09_eof_sound_fft_v2s {α : Type} (o : Dsp.Ops α) (cd : Dsp.Codec α) (taps : List α) (st : Dsp.FftSt α)
+    (ts : List Tag) (f : Nat) (h : st.buf.length < Dsp.calcFftSize taps.length - taps.length) :
+    ((Dsp.fftWork o cd taps st ⟨[⟨[], ts, false⟩], [⟨f, true⟩]⟩).2.produced.getD 0 ⟨[], []⟩).samples = [] ∧
+    ((v2sWork () ⟨[⟨[], ts, false⟩], [⟨f, true⟩]⟩).2.produced.getD 0 ⟨[], []⟩).samples = [] := by
+  refine ⟨Dsp.fftWork_short o cd taps st [] ts f (by unfold Dsp.fftNeed; simp only [List.length_nil]; omega) false, ?_⟩
+  simp [v2sWork, in0, noOut]
+
 /-- Skip: verdicts on an arbitrary single-stream view. -/
 theorem c09_skip (skip : Nat) (w : List Nat) (ts : List Tag) (f : Nat) :
     let r := skipWork skip ⟨[⟨w, ts, true⟩], [⟨f, true⟩]⟩
